@@ -245,17 +245,18 @@ class CSSVariablesDeclaration(cssutils.util._NewBase):
               Raised if this declaration is readonly is readonly.
         """
         self._checkReadonly()
-        normalname = variableName
+        normalname = normalize(variableName)
         try:
             r = self._vars[normalname]
         except KeyError:
             return ''
         else:
             self.seq._readonly = False
-            if normalname in self._vars:
-                for i, x in enumerate(self.seq):
-                    if x.value[0] == variableName:
-                        del self.seq[i]
+            for i, x in enumerate(self.seq):
+                # seq keeps the literal name, and comments too
+                if 'var' == x.type and normalize(x.value[0]) == normalname:
+                    del self.seq[i]
+                    break
             self.seq._readonly = True
             del self._vars[normalname]
 
@@ -302,7 +303,8 @@ class CSSVariablesDeclaration(cssutils.util._NewBase):
 
                 if variableName in self._vars:
                     for i, x in enumerate(self.seq):
-                        if x.value[0] == variableName:
+                        # seq keeps the literal name, and comments too
+                        if 'var' == x.type and normalize(x.value[0]) == variableName:
                             self.seq.replace(
                                 i, [variableName, v], x.type, x.line, x.col
                             )
